@@ -472,6 +472,38 @@ fn step(t: &[&str]) -> String {
                 })
             }
         }
+        // the harness's Rust reference, for the tie with the Lean specification (Spec/*.lean)
+        "specreq" => {
+            let Some((spec, _)) = parse_req(&t[1..]) else { return bad() };
+            match crate::oracle::req_meaning(&spec) {
+                Some(m) => hex_of(&crate::refimpl::req_bytes(&m)),
+                None => "NA".into(),
+            }
+        }
+        "specrsp" => {
+            let Some((spec, _)) = parse_pdu(&t[1..]) else { return bad() };
+            match crate::oracle::rsp_meaning(&spec) {
+                Some(m) => hex_of(&crate::refimpl::rsp_bytes(&m)),
+                None => "NA".into(),
+            }
+        }
+        "speccrc" if t.len() == 2 => {
+            let Some(b) = parse_hex(t[1]) else { return bad() };
+            hex_of(&crate::refimpl::crc_wire(&b))
+        }
+        "speclen" if t.len() == 4 => {
+            let (Ok(hdr), Some(b)) = (t[2].parse::<usize>(), parse_hex(t[3])) else { return bad() };
+            let d = if t[1] == "req" { crate::refimpl::Dir::Req } else { crate::refimpl::Dir::Rsp };
+            match crate::refimpl::predict(hdr, d, &b) {
+                Ok(Some(n)) => format!("SOME {n}"),
+                Ok(None) => "NONE".into(),
+                Err(()) => "ERR".into(),
+            }
+        }
+        "specpack" if t.len() == 2 => {
+            let Some(bits) = parse_bits(t[1]) else { return bad() };
+            hex_of(&crate::refimpl::pack_bits(&bits))
+        }
         "recv" if t.len() == 3 || t.len() == 4 => {
             let cs = if t.len() == 4 { t[3] } else { "" };
             let chunks: Option<Vec<Vec<u8>>> =
